@@ -119,6 +119,26 @@ Lemma c12_refs_leak_never_closed : forall n l1 s1 l2 s2,
   run Refs.step s1 l2 = Some s2 -> Refs.in_closed s2 = false.
 Proof. exact RefsP.refs_leak_never_closed. Qed.
 
+(* the partition-number watcher turns c.closed into the end of the session *)
+Lemma c12_group_watcher : forall c s, Grp.elock c = true -> Reach (Grp.step c) (Grp.init c) s ->
+  (Grp.cc s = Grp.CWaitCtx -> Grp.ctx_done s = true \/ Grp.lc s = Grp.LcNet \/ Grp.lc s = Grp.LcSel \/ Grp.lc s = Grp.LcExit) /\
+  (Grp.lc s = Grp.LcDone -> Grp.ctx_done s = true) /\
+  (1 <= Grp.n_start s + Grp.n_new s + Grp.n_run s + Grp.n_wait s + Grp.n_he s + Grp.n_defer s -> Grp.lc s <> Grp.LcNone) /\
+  (Grp.lc s = Grp.LcSel -> Grp.closed_ch s = true -> exists s', Grp.step c s Grp.ALStop = Some s' /\ Grp.lc s' = Grp.LcExit).
+Proof. exact GrpTT.group_watcher. Qed.
+
+(* broker connection: Open's states (dialling / SASL step / open) and the channels Close waits on *)
+Lemma c12_broker_done_has_receiver :
+  (forall c l s, run (Broker.step c) (Broker.init c) l = Some s ->
+    (Broker.made s = true <-> (Broker.conn s = true /\ Broker.lk s <> Broker.LAuth)) /\
+    (Broker.made s = true -> Broker.rc s <> Broker.RNone) /\
+    (Broker.lk s = Broker.LClose -> Broker.made s = true /\ Broker.rc s <> Broker.RNone) /\
+    (Broker.lk s = Broker.LAuth -> Broker.conn s = true /\ Broker.made s = false /\ Broker.rc s = Broker.RNone) /\
+    (Broker.conn s = false -> Broker.made s = false /\ Broker.rc s = Broker.RNone)) /\
+  (forall c s s', Broker.lk s = Broker.LAuth -> Broker.step c s Broker.AAuthFail = Some s' ->
+    Broker.conn s' = false /\ Broker.lk s' = Broker.LFree /\ Broker.made s' = Broker.made s /\ Broker.rc s' = Broker.rc s).
+Proof. exact (conj BrokerP.broker_done_has_receiver BrokerP.broker_auth_fail_not_connected). Qed.
+
 (* ================= the pre-fix consumer group (model flag elock = false) ================= *)
 Lemma c12_no_send_on_closed_group_refuted :
   exists l s, run (Grp.step GrpS.racy_cfg) (Grp.init GrpS.racy_cfg) l = Some s /\ Grp.panic s = true.
